@@ -1,5 +1,53 @@
-(** C15 -- placeholder while the proofs are built *)
-From RL Require Import Model.Decode.
-Theorem C15_placeholder : m_decode strict_opts [] = Val (Err [IncompleteFlags], []).
-Proof. reflexivity. Qed.
-Print Assumptions C15_placeholder.
+(** C15 -- Control messages: all-or-nothing acceptance and a complete, ordered
+    error list.  For a body that is a concatenation of well-delimited records the
+    result is determined record by record ([s_record]): accepted iff the first
+    record (if any) is a Message Type and no record is undecodable; otherwise the
+    error list is exactly the errors of the undecodable records in wire order. *)
+From RL Require Import Model.Decode Spec.SpecDecode Proofs.Framing Proofs.Totality.
+
+Theorem C15_ctrl_result : forall o hdr rs,
+  ctrl_header_ok o hdr (len (concat rs)) -> forallb well_delimited rs = true ->
+  s_ctrl o (hdr ++ concat rs) =
+  let xs := map s_record rs in
+  if negb (s_first_ok xs) then Err [ControlMessageTypeNotFirst]
+  else if existsb is_err xs then Err (flat_map err_of_record rs)
+  else Ok (Control {| c_length := fld 2 2 hdr; c_tunnel := fld 2 4 hdr; c_session := fld 2 6 hdr;
+                      c_ns := fld 2 8 hdr; c_nr := fld 2 10 hdr; c_avps := oks_of xs |}, []).
+Proof. exact ctrl_by_records. Qed.
+
+Theorem C15_one_error_per_bad_record : forall rs,
+  length (flat_map err_of_record rs) = length (filter (fun r => is_err (s_record r)) rs).
+Proof. exact errs_count. Qed.
+
+Theorem C15_err_nonempty : forall o b es, s_decode o b = Err es -> es <> [].
+Proof. exact s_decode_err_nonempty. Qed.
+
+Theorem C15_zlb_accepted : forall o hdr, ctrl_header_ok o hdr 0 ->
+  exists m, s_ctrl o hdr = Ok (Control m, []) /\ c_avps m = [].
+Proof. exact ctrl_zlb. Qed.
+
+Theorem C15_stop_only_on_bad_length : forall rs bad, forallb well_delimited rs = true ->
+  6 <= len bad -> (rec_length bad < 6 \/ len bad < rec_length bad) ->
+  exists x, fst (s_avps (concat rs ++ bad)) = map s_record rs ++ [Err (InvalidAVPLength x)].
+Proof. exact avps_stop_at_bad_length. Qed.
+
+(** vendor-specific records are undecodable by definition of [s_record] *)
+Theorem C15_vendor_is_error : forall r, rec_vendor r <> 0 ->
+  s_record r = Err (UnsupportedVendorId (rec_vendor r)).
+Proof.
+  intros r H. unfold s_record. replace (rec_vendor r =? 0) with false by (symmetry; apply N.eqb_neq; exact H).
+  reflexivity.
+Qed.
+
+Example C15_two_bad_records :
+  s_decode default_opts
+    [19;32;0;41; 0;1;0;2;0;3;0;4;  1;8;0;0;0;0;0;1;  1;6;0;0;0;20;  1;7;0;9;0;3;1;  1;8;0;0;0;6;0;5]
+  = Err [UnknownAvp 20; UnsupportedVendorId 9].
+Proof. vm_compute. reflexivity. Qed.
+
+Print Assumptions C15_ctrl_result.
+Print Assumptions C15_one_error_per_bad_record.
+Print Assumptions C15_err_nonempty.
+Print Assumptions C15_zlb_accepted.
+Print Assumptions C15_stop_only_on_bad_length.
+Print Assumptions C15_vendor_is_error.
